@@ -1,3 +1,4 @@
 import Ops.Core
 import Ops.Codec
 import Ops.Transforms
+import Ops.Quant
